@@ -11,6 +11,7 @@ import fs from "node:fs";
 import path from "node:path";
 import { Rng, fnv32, canon } from "./lib.mjs";
 import { buildHost, betweenBuilds } from "./hostlib.mjs";
+import { watchLoopLeg } from "./watchloop.mjs";
 
 const HOME = process.env.VERIF_HOME || "/verif";
 const ROOT = Number(process.env.VERIF_SEED || 1);
@@ -169,6 +170,17 @@ try {
 }
 if (cmd === "replay") {
   const file = JSON.parse(fs.readFileSync(a1, "utf8"));
+  if (file.kind === "watchloop") {
+    // seeded: the history is a function of (seed, index); histories 0..index are run again
+    const r = watchLoopLeg(OUT, file.run_index + 1, file.root_seed);
+    fs.rmSync(work, { recursive: true, force: true });
+    if (r.violations.some((v) => v.class === file.violation_class)) {
+      console.log(`VIOLATION property=C14 replay=${a1} class=${file.violation_class}`);
+      process.exit(1);
+    }
+    console.log(`replay of ${a1} did not reproduce class '${file.violation_class}'`);
+    process.exit(0);
+  }
   const r = exec(H, file, scratch);
   fs.rmSync(work, { recursive: true, force: true });
   const hit = r.violations.find((v) => v.class === file.violation_class);
@@ -202,10 +214,23 @@ for (const [cls, { index, run }] of [...first.entries()].sort()) {
   agg.violations.push({ class: cls, replay: p, first_seen_in_run: index });
   lines.push(`VIOLATION property=C14 replay=${p} class=${cls}`);
 }
+// the watch loop of commandeer.ts, with controllable stand-ins for chokidar / commander / wasm
+const wl = watchLoopLeg(OUT, tier === "quick" ? 200 : 3000, ROOT);
+agg.watch_loop = { ...wl, what: "commandeer.ts + bundler.ts + bundle-to-disk.ts evaluated for real in watch mode (stand-ins: chokidar with recorded watchers, commander, the wasm package with recorded calls); seeded histories of saves, change events, changing read sets and failing builds; W1 change hands the current content over first, W2 then builds, W3 every file a build reads is watched, W4 the output on disk is the last successful build" };
+for (const v of wl.violations) {
+  const file = { engine: "hostleg", kind: "watchloop", property: "C14", violation_class: v.class, root_seed: ROOT, run_index: v.detail.history ?? 0, observed: v.detail };
+  const dir = path.join(OUT, "replays", "C14");
+  fs.mkdirSync(dir, { recursive: true });
+  const p = path.join(dir, "hostleg_" + fnv32(canon(file)).toString(16).padStart(8, "0") + ".json");
+  fs.writeFileSync(p, JSON.stringify(file, null, 1));
+  agg.violations.push({ class: v.class, replay: p, first_seen_in_run: file.run_index });
+  lines.push(`VIOLATION property=C14 replay=${p} class=${v.class}`);
+}
+if (!wl.ran) console.log("NOTE: watch-loop leg skipped: " + wl.reason);
 agg.wall_s = (Date.now() - t0) / 1000;
 agg.what = "seeded histories (file writes / deletions on a real scratch directory, build boundaries, resolve_import and emit_diagnostic questions) against ONE evaluation of the working tree's bundler.ts, every answer after a build boundary compared with a brand-new evaluation";
 fs.writeFileSync(path.join(OUT, "hostleg.json"), JSON.stringify(agg, null, 1));
 fs.rmSync(work, { recursive: true, force: true });
 for (const l of lines) console.log(l);
-console.log(`HOSTLEG runs=${N} questions=${agg.asked} compared=${agg.compared} build_boundaries=${agg.boundaries} fs_changes=${agg.fs_changes} wall=${agg.wall_s.toFixed(1)}s`);
+console.log(`HOSTLEG runs=${N} questions=${agg.asked} compared=${agg.compared} build_boundaries=${agg.boundaries} fs_changes=${agg.fs_changes} watch_loop_histories=${wl.histories ?? 0} change_events=${wl.change_events ?? 0} wall=${agg.wall_s.toFixed(1)}s`);
 process.exit(lines.length ? 1 : 0);
